@@ -1,0 +1,57 @@
+//go:build verif
+
+package shutterservice
+
+import (
+	"context"
+
+	"github.com/jackc/pgx/v4/pgxpool"
+
+	"github.com/shutter-network/rolling-shutter/rolling-shutter/keyper/epochkghandler"
+	"github.com/shutter-network/rolling-shutter/rolling-shutter/medley/broker"
+	syncevent "github.com/shutter-network/rolling-shutter/rolling-shutter/medley/chainsync/event"
+)
+
+// Hooks for the verification harness in /verif (property C02). Add-only, compiled only with
+// -tags verif: constructors / accessors for unexported fields, no behaviour of their own.
+
+// VerifNewKeyper builds a Keyper the way Start does for the parts processNewBlock uses: config,
+// database pool and the decryption trigger channel; latestTriggeredTime is nil as after Start.
+func VerifNewKeyper(
+	config *Config,
+	dbpool *pgxpool.Pool,
+	trigger chan *broker.Event[*epochkghandler.DecryptionTrigger],
+) *Keyper {
+	return &Keyper{config: config, dbpool: dbpool, decryptionTriggerChannel: trigger}
+}
+
+// VerifSetMultiEventSyncer sets the syncer initMultiEventSyncer would create.
+func (kpr *Keyper) VerifSetMultiEventSyncer(s *MultiEventSyncer) { kpr.multiEventSyncer = s }
+
+// VerifProcessNewBlock calls processNewBlock.
+func (kpr *Keyper) VerifProcessNewBlock(ctx context.Context, ev *syncevent.LatestBlock) error {
+	return kpr.processNewBlock(ctx, ev)
+}
+
+// VerifMaybeTriggerDecryption calls maybeTriggerDecryption.
+func (kpr *Keyper) VerifMaybeTriggerDecryption(ctx context.Context, ev *syncevent.LatestBlock) error {
+	return kpr.maybeTriggerDecryption(ctx, ev)
+}
+
+// VerifLatestTriggeredTime reads latestTriggeredTime (ok=false: nil).
+func (kpr *Keyper) VerifLatestTriggeredTime() (t uint64, ok bool) {
+	if kpr.latestTriggeredTime == nil {
+		return 0, false
+	}
+	return *kpr.latestTriggeredTime, true
+}
+
+// VerifSetLatestTriggeredTime restores a value read earlier with VerifLatestTriggeredTime
+// (the harness walks a tree of histories and returns to earlier nodes).
+func (kpr *Keyper) VerifSetLatestTriggeredTime(t uint64, ok bool) {
+	if !ok {
+		kpr.latestTriggeredTime = nil
+		return
+	}
+	kpr.latestTriggeredTime = &t
+}
